@@ -178,7 +178,7 @@ def flatten_stars(e):
         return e
     out = []
     for x in e.elts:
-        if isinstance(x, ast.Starred) and isinstance(x.value, (ast.List, ast.Tuple)):
+        if isinstance(x, ast.Starred) and isinstance(x.value, (ast.List, ast.Tuple)) and x.value.elts:   # an empty display is a list filled later: kept starred
             inner = flatten_stars(x.value)
             out.extend(inner.elts)
         else:
